@@ -1,237 +1,20 @@
-//! C17.3: histories over the Rust side of the shared containers (`resolvo_cpp`'s
-//! `Vector<T>` / `String`, reachable through the `verif-hooks` feature), checked against
-//! `Vec` / `String` models under ASan + the ledger allocator (and Miri in the thorough tier).
-
+//! C17.3 wrapper: see rustcont_core.rs (shared with the Miri tier).
 use crate::Report;
-use resolvo_cpp::verif::{String as CString, Vector as CVector};
-use vcore::tape::Tape;
 
-struct LyingIter {
-    data: Vec<u32>,
-    pos: usize,
-    hint: usize,
-}
-
-impl Iterator for LyingIter {
-    type Item = u32;
-    fn next(&mut self) -> Option<u32> {
-        let v = self.data.get(self.pos).copied();
-        self.pos += 1;
-        v
-    }
-    fn size_hint(&self) -> (usize, Option<usize>) {
-        (self.hint, None)
-    }
-}
-
-pub fn decode(tape: &[u16]) -> Vec<[u32; 4]> {
-    let mut t = Tape::new(tape);
-    let n = 1 + t.below(50);
-    (0..n)
-        .map(|_| [1 + t.below(20) as u32, t.below(8) as u32, t.below(40) as u32, t.below(1000) as u32])
-        .collect()
-}
+#[path = "rustcont_core.rs"]
+mod core;
 
 pub fn eval_rust_containers(tape: &[u16]) -> Report {
     let mut rep = Report::default();
-    let ops = decode(tape);
-    rep.describe = format!("{ops:?}");
-    const NV: usize = 4;
-    const NW: usize = 2;
-    const NS: usize = 3;
-    let mut v: Vec<CVector<u32>> = (0..NV).map(|_| CVector::default()).collect();
-    let mut mv: Vec<Vec<u32>> = vec![vec![]; NV];
-    let mut w: Vec<CVector<CString>> = (0..NW).map(|_| CVector::default()).collect();
-    let mut mw: Vec<Vec<String>> = vec![vec![]; NW];
-    let mut s: Vec<CString> = (0..NS).map(|_| CString::default()).collect();
-    let mut ms: Vec<String> = vec![String::new(); NS];
-    let sample = |i: u32| crate::SAMPLES[i as usize % crate::SAMPLES.len()];
-    let mut shared_mut = false;
-    let mut partial_iter = false;
-    for (k, o) in ops.iter().enumerate() {
-        let [op, a, b, c] = *o;
-        let (av, bv) = (a as usize % NV, b as usize % NV);
-        let (aw, bw) = (a as usize % NW, b as usize % NW);
-        let (as_, bs) = (a as usize % NS, b as usize % NS);
-        match op {
-            1 => {
-                v[av] = CVector::with_capacity(b as usize % 9);
-                mv[av].clear();
-            }
-            2 => {
-                v[av].push(c);
-                mv[av].push(c);
-            }
-            3 => {
-                let cl = v[bv].clone();
-                v[av] = cl;
-                mv[av] = mv[bv].clone();
-            }
-            4 => {
-                // clone (shared) then push to the clone: must detach, original untouched
-                let mut cl = v[bv].clone();
-                cl.push(c);
-                let mut m = mv[bv].clone();
-                m.push(c);
-                v[av] = cl;
-                mv[av] = m;
-                shared_mut = true;
-            }
-            5 => {
-                // into_iter of a (possibly shared) vector, collect back
-                let taken = std::mem::take(&mut v[av]);
-                v[av] = taken.into_iter().map(|x| x.wrapping_add(1)).collect();
-                for x in mv[av].iter_mut() {
-                    *x = x.wrapping_add(1);
-                }
-            }
-            6 => {
-                // partially consumed into_iter, then dropped
-                let keep_shared = b % 2 == 0;
-                let other = if keep_shared { Some(v[av].clone()) } else { None };
-                let taken = std::mem::take(&mut v[av]);
-                let mut it = taken.into_iter();
-                let mut got = vec![];
-                for _ in 0..(c as usize % 4) {
-                    if let Some(x) = it.next() {
-                        got.push(x);
-                    }
-                }
-                drop(it);
-                let want: Vec<u32> = mv[av].iter().copied().take(c as usize % 4).collect();
-                if got != want {
-                    rep.failure = Some(("C17:rust-container-model-mismatch".into(), format!("op #{k} {o:?}: partial into_iter yielded {got:?}, expected {want:?}")));
-                    return rep;
-                }
-                match other {
-                    Some(o2) => v[av] = o2,
-                    None => mv[av].clear(),
-                }
-                partial_iter = true;
-            }
-            7 => {
-                // FromIterator with a lying size_hint (under- or over-reporting)
-                let data: Vec<u32> = (0..(b % 12)).map(|i| c + i).collect();
-                let hint = match a % 3 {
-                    0 => 0,
-                    1 => data.len() / 2,
-                    _ => data.len() + 3,
-                };
-                v[av] = LyingIter {
-                    data: data.clone(),
-                    pos: 0,
-                    hint,
-                }
-                .collect();
-                mv[av] = data;
-            }
-            8 => {
-                v[av] = CVector::default();
-                mv[av].clear();
-            }
-            9 => {
-                v.swap(av, bv);
-                mv.swap(av, bv);
-            }
-            10 => {
-                s[as_] = CString::from(sample(b));
-                ms[as_] = sample(b).to_string();
-            }
-            11 => {
-                let cl = s[bs].clone();
-                s[as_] = cl;
-                ms[as_] = ms[bs].clone();
-            }
-            12 => {
-                s[as_] = CString::from(format!("{}{}", sample(b), c));
-                ms[as_] = format!("{}{}", sample(b), c);
-            }
-            13 => {
-                s[as_] = CString::default();
-                ms[as_].clear();
-            }
-            14 => {
-                w[aw].push(s[bs].clone());
-                mw[aw].push(ms[bs].clone());
-            }
-            15 => {
-                let mut cl = w[bw].clone();
-                cl.push(CString::from(sample(c)));
-                let mut m = mw[bw].clone();
-                m.push(sample(c).to_string());
-                w[aw] = cl;
-                mw[aw] = m;
-                shared_mut = true;
-            }
-            16 => {
-                let keep_shared = b % 2 == 0;
-                let other = if keep_shared { Some(w[aw].clone()) } else { None };
-                let taken = std::mem::take(&mut w[aw]);
-                let mut it = taken.into_iter();
-                let mut got = vec![];
-                for _ in 0..(c as usize % 3) {
-                    if let Some(x) = it.next() {
-                        got.push(x.as_str().to_string());
-                    }
-                }
-                drop(it);
-                let want: Vec<String> = mw[aw].iter().cloned().take(c as usize % 3).collect();
-                if got != want {
-                    rep.failure = Some(("C17:rust-container-model-mismatch".into(), format!("op #{k} {o:?}: partial into_iter of strings yielded {got:?}, expected {want:?}")));
-                    return rep;
-                }
-                match other {
-                    Some(o2) => w[aw] = o2,
-                    None => mw[aw].clear(),
-                }
-                partial_iter = true;
-            }
-            17 => {
-                let taken = std::mem::take(&mut w[aw]);
-                w[aw] = taken.into_iter().collect();
-            }
-            18 => {
-                w[aw] = CVector::default();
-                mw[aw].clear();
-            }
-            19 => {
-                let cl = w[bw].clone();
-                w[aw] = cl;
-                mw[aw] = mw[bw].clone();
-            }
-            _ => {
-                v[av] = mv[bv].iter().copied().collect();
-                mv[av] = mv[bv].clone();
-            }
-        }
-        // compare every register with its model after every step
-        for r in 0..NV {
-            if v[r].as_slice() != &mv[r][..] || v[r].len() != mv[r].len() || v[r].is_empty() != mv[r].is_empty() {
-                rep.failure = Some(("C17:rust-container-model-mismatch".into(), format!("after op #{k} {o:?}: Vector<u32> register {r} = {:?}, model {:?}", v[r].as_slice(), mv[r])));
-                return rep;
-            }
-        }
-        for r in 0..NS {
-            if s[r].as_str() != ms[r] || s[r].len() != ms[r].len() {
-                rep.failure = Some(("C17:rust-container-model-mismatch".into(), format!("after op #{k} {o:?}: String register {r} = {:?}, model {:?}", s[r].as_str(), ms[r])));
-                return rep;
-            }
-        }
-        for r in 0..NW {
-            let got: Vec<&str> = w[r].as_slice().iter().map(|x| x.as_str()).collect();
-            let want: Vec<&str> = mw[r].iter().map(|x| x.as_str()).collect();
-            if got != want {
-                rep.failure = Some(("C17:rust-container-model-mismatch".into(), format!("after op #{k} {o:?}: Vector<String> register {r} = {got:?}, model {want:?}")));
-                return rep;
-            }
-        }
+    rep.describe = format!("{:?}", core::decode(tape));
+    let (fail, nontrivial) = core::run(tape);
+    if let Some(f) = fail {
+        rep.failure = Some(("C17:rust-container-model-mismatch".into(), f));
     }
-    if shared_mut {
+    rep.nontrivial = nontrivial;
+    if nontrivial {
         rep.labels.push("shared-then-mutated".into());
-    }
-    if partial_iter {
         rep.labels.push("partial-into-iter".into());
     }
-    rep.nontrivial = shared_mut && partial_iter;
     rep
 }
